@@ -30,8 +30,6 @@ EXEMPT: dict[tuple[str, str], str] = {
     ("parse_primitive", "float(token.value)"): "token text matched the lexer's FLOAT regex; float() of a numeric string never raises (overflow gives inf)",
     ("parse_boolean_primitive", "float(token.value)"): "token text matched the lexer's FLOAT regex; float() of a numeric string never raises (overflow gives inf)",
     ("RenderContext.cycle", "idx % length"): "length = len(self.items) of a CycleNode; CycleTag.parse rejects an empty item list",
-    ("CycleNode.render_to_output", "self.items[index] (computed index)"): "index = context.cycle(hash, len(self.items)) returns `idx % length` with length = len(self.items) > 0 (CycleTag.parse appends the first item unconditionally)",
-    ("CycleNode.render_to_output_async", "self.items[index] (computed index)"): "same as the sync twin",
     ("_decode_escape_sequence", "value[index] (computed index)"): "index is the position after a backslash inside a string token's value; Lexer.accept_string / accept_template_string consume a backslash only together with the character after it (`peeked in ESCAPES or peeked == quote`, else 'invalid escape sequence'), and the callers' replace of \\' by ' only shortens pairs",
     ("RenderContext.get", "next(it)"): "path lists are built by the parser and are never empty (Path.__init__ from a PathToken with at least a root)",
     ("RenderContext.get_async", "next(it)"): "path lists are built by the parser and are never empty",
